@@ -33,6 +33,8 @@ def main():
         try:
             for v in ('plain', 'asan', 'tsan'):
                 core.build(v)
+            for prog in ('tests', 'example'):
+                core.build_suite(prog)          # the recorded test suite / example (skipped by their stages if they do not build)
             r = core.sh('cd %s && for m in *.tla; do tla-sany $m > /dev/null 2>&1 || echo "PARSE-FAIL $m"; done' % core.SPEC)
             print(r.stdout.strip() or 'setup ok')
             return 1 if 'PARSE-FAIL' in r.stdout else 0
